@@ -162,9 +162,15 @@ class Holder:
 
 
 @jaxtyped(typechecker=None)
-def in_call_context(n, m, body, h=None):
-    """A jaxtyped call whose arguments n, m, h are visible to `{n}`/`{m}`/`{h.k}` in symbolic axes."""
+def in_call_context(n, m, body, h=None, *extra, kw=7, **opts):
+    """A jaxtyped call whose arguments are visible to `{n}`/`{m}`/`{h.k}`/`{len(extra)}`/`{kw}`/`{len(opts)}` in
+    symbolic axes - including the default `kw` and the (possibly EMPTY) `*extra` / `**opts`."""
     return body()
+
+
+def call_args_model(n, m, h=None, extra=(), opts=None):
+    """what the documented language means by 'the current call's arguments' for in_call_context"""
+    return {"n": n, "m": m, "h": h, "extra": tuple(extra), "kw": 7, "opts": dict(opts or {})}
 
 
 def in_block_context(body):
